@@ -282,22 +282,18 @@ theorem isPrefix_split (pre k : List Nat) (h : isPrefix pre k = true) : ∃ r, k
 the prefix with at most `maxPre − argsLen` bytes (script args of at most `MAX_PREFIX_SEARCH_SIZE − 17`
 bytes in total): a descending walk then sees every row -/
 theorem descView_eq (maxPre : Nat) (s : Store) (pre : List Nat) (argsLen : Nat)
-    (hk : ∀ e ∈ s, isPrefix pre e.1.bytes = true →
-      e.1.bytes.length ≤ pre.length + (maxPre - argsLen) ∧ ∀ x ∈ e.1.bytes, x ≤ 255) :
+    (hk : ∀ e ∈ s, ∀ r, e.1.bytes = pre ++ r → r.length ≤ maxPre - argsLen ∧ ∀ x ∈ r, x ≤ 255) :
     descView maxPre s pre argsLen = s := by
   unfold descView
   rw [List.filter_eq_self]
   intro e he
   by_cases hp : isPrefix pre e.1.bytes = true
-  · obtain ⟨hlen, hb⟩ := hk e he hp
-    obtain ⟨r, hr⟩ := isPrefix_split pre e.1.bytes hp
+  · obtain ⟨r, hr⟩ := isPrefix_split pre e.1.bytes hp
+    obtain ⟨hlen, hb⟩ := hk e he r hr
     have h1 : bytesLt (descSeekKey maxPre pre argsLen) e.1.bytes = false := by
       rw [hr]
       unfold descSeekKey
-      apply not_lt_append
-      apply not_lt_replicate
-      · rw [hr] at hlen; simp at hlen; omega
-      · intro x hx; exact hb x (by rw [hr]; simp [hx])
+      exact not_lt_append _ _ _ (not_lt_replicate _ r hlen hb)
     simp [h1]
   · simp [hp]
 
